@@ -215,6 +215,12 @@ func (m *Manager) Stop() error {
 
 		if ses != nil {
 			ses.stop(mqttp.CodeServerShuttingDown)
+			// the connection is closed now. A container that is kept (durable session with
+			// subscriptions, pending expiry or delayed will) stays in the map and has not been
+			// counted down by sessionOffline
+			if _, kept := m.sessions.Load(k); kept {
+				m.sessionsCount.Done()
+			}
 		} else {
 			m.sessionsCount.Done()
 		}
